@@ -1,7 +1,7 @@
 import EoVerif.Model.GenCompile
 import EoVerif.Spec.WellFormed
 /-! Helper lemmas for C17. -/
-namespace EoVerif.Gen
+namespace EoVerif.Gen.WF
 open EoVerif.Spec
 
 /-! ### Association lists -/
@@ -840,4 +840,4 @@ theorem compile_wfClass {files : List ProtoFile} {out : GenOutput} (h : compile 
   obtain ⟨y, hy⟩ := mapM'_ok ho f hf
   exact genFile_wfClass hy he
 
-end EoVerif.Gen
+end EoVerif.Gen.WF
